@@ -17,23 +17,26 @@ mcvars == <<st, prog, sym, macros, case, phase, nsteps>>
 
 Sem == INSTANCE TALSem
 
-CasesOf(f) == CASE f = "expr"  -> Fam("expr", ExprTrees, CtxIds)
-                [] f = "one"   -> Fam("one", OneTrees, CtxIds)
-                [] f = "void"  -> Fam("void", VoidTrees, CtxIds)
-                [] f = "nestq" -> Fam("nest", NestTreesQuick, CtxIds)
-                [] f = "nest"  -> Fam("nest", NestTreesFull, CtxIds)
-                [] f = "deep"  -> Fam("deep", DeepTrees, CtxIds)
-                [] f = "metal" -> Fam("metal", MetalTrees, CtxIds)
-                [] f = "esc"   -> EscCases(EscLen)
-                [] f = "py"    -> PyCases
+CasesOf(f) == CASE f = "expr"   -> Fam("expr", ExprTrees, CtxIds)
+                [] f = "one0"   -> Fam("one", OneTrees({<<>>}), CtxIds)
+                [] f = "one1"   -> Fam("one", OneTrees({<<Define1a>>}), CtxIds)
+                [] f = "one2"   -> Fam("one", OneTrees({<<Define1b>>}), CtxIds)
+                [] f = "void"   -> Fam("void", VoidTrees, CtxIds)
+                [] f = "nestq0" -> Fam("nest", NestTreesQuick({<<>>}), CtxIds)
+                [] f = "nestq1" -> Fam("nest", NestTreesQuick({<<PDefineA>>}), CtxIds)
+                [] f = "nestq2" -> Fam("nest", NestTreesQuick({<<PDefineB>>}), CtxIds)
+                [] f = "nest0"  -> Fam("nest", NestTreesFull({<<>>}), CtxIds)
+                [] f = "nest1"  -> Fam("nest", NestTreesFull({<<PDefineA>>}), CtxIds)
+                [] f = "nest2"  -> Fam("nest", NestTreesFull({<<PDefineB>>}), CtxIds)
+                [] f = "deep"   -> Fam("deep", DeepTrees, CtxIds)
+                [] f = "metal0" -> Fam("metal", MetalTrees({TRUE}) \cup MetalExtra, CtxIds)
+                [] f = "metal1" -> Fam("metal", MetalTrees({FALSE}), CtxIds)
+                [] f = "esc"    -> EscCases(EscLen)
+                [] f = "py"     -> PyCases
 Cases == UNION {CasesOf(f) : f \in Families}
 
 \* the context the harness builds: the entries of the case plus `macros` = the template's macro table
-RECURSIVE EntsToFn(_, _)
-EntsToFn(ents, i) == IF i > Len(ents) THEN EmptyF ELSE Put(EntsToFn(ents, i + 1), ents[i].s, ents[i].q[1])
-MacroNames(tree) == LET ml == Sem!MacroList(tree, 1) IN [i \in DOMAIN ml |-> ml[i].name]
-MacrosValue(names) == MapV([i \in DOMAIN names |-> Ent(names[i], MacroV(names[i]))])
-G0(c) == Put(EntsToFn(CtxEnts(c), 1), "macros", MacrosValue(MacroNames(c.tree)))
+G0(c) == Sem!GlobalsOf(CtxEnts(c), c.tree)
 
 Init == /\ case \in Cases /\ phase = "init" /\ nsteps = 0
         /\ st = VMInit(EmptyF, FALSE, 0) /\ prog = <<>> /\ sym = [x \in {} |-> 0] /\ macros = <<>>
@@ -58,5 +61,5 @@ Refines    == (Done /\ st.err = "") => (st.out = Sem!Doc(Ref.t) /\ st.g = Ref.g)
 ContextRestored == (Done /\ st.err = "") => Restored(st, G0(case))
 PythonGated == (Done /\ st.err = "" /\ ~case.py) => TX!Find(st.out, "PY") = 0
 
-WriteCases == JsonSerialize(IOEnv.CASES_FILE, SetToSeq(Cases))
+WriteCases == JsonSerialize(IOEnv.CASES_FILE, [cases |-> SetToSeq(Cases), contexts |-> Contexts])
 =============================================================================
